@@ -71,6 +71,7 @@ func tReset(t *tty, v *tval, p string) {
 		skip()
 		return
 	}
+	trace("t.reset", t.String()+"|"+v.String()+"|"+p)
 	impl := guarded(func() string {
 		x := t.toGo(v).Addr().Interface()
 		fresh, err := thrift.Marshal(tproto(p), x)
@@ -344,6 +345,7 @@ func tEncode(t *tty, v *tval, p string) {
 		skip()
 		return
 	}
+	trace("t.enc", t.String()+"|"+v.String()+"|"+p)
 	impl := guarded(func() string {
 		x := t.toGo(v).Addr().Interface()
 		b, err := thrift.Marshal(tproto(p), x)
